@@ -122,6 +122,14 @@ func (g *StoreGen) extraTags(e *mocrelay.Event) {
 		}
 		e.Tags = append(e.Tags, mocrelay.Tag{string(rune(g.R.IntN(3))), val})
 	}
+	if g.R.IntN(6) == 0 {
+		// the same tag name two or three times with different values (a reply names two events,
+		// an article has several topics): one event satisfies one tag condition several times over
+		name := Pick(g.R, []string{"t", "e", "p", "t"})
+		for _, k := range g.R.Perm(len(SGTagValues))[:2+g.R.IntN(2)] {
+			e.Tags = append(e.Tags, mocrelay.Tag{name, SGTagValues[k]})
+		}
+	}
 	n := g.R.IntN(3)
 	for i := 0; i < n; i++ {
 		// multi-letter names whose first letter is a filter key must not be mistaken for it
@@ -194,6 +202,20 @@ func AddrTag(e *mocrelay.Event) string {
 func (g *StoreGen) deletion() *mocrelay.Event {
 	k := &mocrelay.Event{Kind: 5, Pubkey: Pick(g.R, g.Authors), CreatedAt: g.at(), Content: g.content(), Tags: []mocrelay.Tag{}}
 	nref := 1 + g.R.IntN(3)
+	if g.R.IntN(15) == 0 {
+		// a deletion request that names nothing usable: no tags, a p tag only, or name-only e / a tags
+		nref = 0
+		switch g.R.IntN(3) {
+		case 1:
+			k.Tags = append(k.Tags, mocrelay.Tag{"p", Pick(g.R, g.Authors)})
+		case 2:
+			k.Tags = append(k.Tags, mocrelay.Tag{"e"}, mocrelay.Tag{"a"})
+		}
+	}
+	if g.R.IntN(10) == 0 {
+		// references that can name nothing, next to the usable ones
+		k.Tags = append(k.Tags, Pick(g.R, []mocrelay.Tag{{"e", "not-an-event-id"}, {"a", "garbage"}, {"e", "not-an-event-id", "wss://relay.example"}}))
+	}
 	for i := 0; i < nref; i++ {
 		var target *mocrelay.Event
 		switch c := g.R.IntN(10); {
@@ -365,6 +387,16 @@ func (g *FilterGen) Filter() *mocrelay.ReqFilter {
 		if r.IntN(6) == 0 {
 			f.Limit = Ptr(int64(1000))
 		}
+	}
+	if r.IntN(12) == 0 && len(g.Events) > 0 {
+		// a window of exactly one second that holds an event
+		at := Pick(r, g.Events).CreatedAt
+		f.Since, f.Until = Ptr(at), Ptr(at)
+	}
+	if r.IntN(8) == 0 {
+		// one tag condition listing every value in use, cut by a small limit: an event carrying
+		// several of the values must count once
+		f = &mocrelay.ReqFilter{Tags: map[string][]string{Pick(r, []string{"t", "e", "p"}): append([]string{}, SGTagValues...)}, Limit: Ptr(int64(2 + r.IntN(2)))}
 	}
 	return f
 }
